@@ -40,6 +40,13 @@ def run(rep, ctx):
     rep.run_rule("C16.R3", "every derivable legacy spelling maps exactly to its current symbol; rewriting is idempotent (exhaustive)", r3_alias, ctx)
     rep.run_rule("C16.R4", "every unit-string entry point retries with the rewritten spelling", r4_sites, ctx)
     rep.run_rule("C16.R5", "the rewritten spelling is what gets stored / cached", r5_stored, ctx)
+    from . import c19
+    from ..report import borrow
+    rep.rule("C16.R6", "a legacy spelling resolves its default category exactly like the current spelling (GetDefaultCategory's resolution order holds on the legacy path too; shared with C19.R1b)")
+    try:
+        borrow(rep, c19.r1b_mechanism, ctx, "C19.R1b", "C16.R6")
+    except AnalysisError as e:
+        rep.error("C16.R6", str(e))
     rep.not_decided.append("equality of the conversion *results* for legacy vs current spelling beyond resolving to the same UnitInfo (follows from C01/C02 routes)")
 
 
